@@ -12,16 +12,16 @@ TECH = "contract-based deductive verification: weakest-precondition VCs generate
 # id -> (claimed?, level text, level note, design ref)
 CHECKS = {
     "C01": (True,
-            "Per-operation spend contracts over the ghost tables spent/pending, proved for all inputs: Swap and MeltTokens succeed only on inputs that were neither spent nor pending before and are pairwise distinct by Y (duplicates keyed on the secret), leave them spent (swap, paid melt) or locked (pending melt); spent only grows in every operation (frame); inputs of a melt are released only on the definitive-failure answers of C05; ProofsStateCheck reports the table contents; the invariant `no Y is both pending and spent` is preserved by every operation.",
-            "Sequential histories only (interleavings are not claimed: check-then-act windows across separate transactions are outside this technique). Assumed: storage.MintDB contracts (atomic insert-if-absent of SaveProofs/AddPendingProofs; kept honest by a bounded conformance harness when present), A-META, hash_to_curve as an uninterpreted function Yof(secret).",
+            "Per-operation spend contracts over the ghost tables spent/pending, proved for all inputs: Swap and MeltTokens succeed only on inputs that were neither spent nor pending before and are pairwise distinct by Y (duplicates keyed on the secret), leave them spent (swap, paid melt) or locked (pending melt); spent only grows in every operation (frame); inputs of a melt are released only on the definitive-failure answers of C05; ProofsStateCheck reports the table contents; the invariant `no Y is both pending and spent` is preserved by every operation. RELY/GUARANTEE TIER (schedules at store/Lightning-call granularity): Swap and MeltTokens are verified a second time with the ghost store changing arbitrarily - within the declared rely clauses (spent proofs stay spent with their row, no step makes a proof both locked and spent, signatures stay) - before every MintDB / Lightning call; every such call of the verified function is itself proved to be a step the rely allows (guarantee obligations, ~80 discharged); a successful swap has its inputs spent under every interleaving. Three guarantee obligations FAIL and are listed as known findings: SaveProofs in Swap, AddPendingProofs and SaveProofs in MeltTokens can make a proof both locked and spent (check-then-act race, double spend shown by a deterministic interleaving replay).",
+            "Sequential histories only (interleavings are not claimed: check-then-act windows across separate transactions are outside this technique). Assumed: storage.MintDB contracts (atomic insert-if-absent of SaveProofs/AddPendingProofs; kept honest by a bounded conformance harness when present), A-META, hash_to_curve as an uninterpreted function Yof(secret). Rely/guarantee tier: callees that themselves talk to the store are abstracted by a yield plus their own rg postconditions; atomicity of one MintDB call is A-DB; only the listed rely clauses constrain the other requests.",
             "DESIGN.md §8 C01"),
     "C02": (True,
             "The four per-operation inequalities of the statement proved in mathematical integers incl. uint64 wrap-around: Swap (sum outputs + ceil(sum ppk/1000) <= sum inputs), MintTokens (sum outputs <= quote amount), MeltTokens (inputs >= amount + fee reserve + input fees at the point where inputs are locked, under the stored-row invariant), fee limit handed to SendPayment/PayPartialAmount <= stored fee reserve; internal settlement only for the mint quote of the same invoice and hence the same amount; MPP melts never internal.",
             "Assumed: lightning.Client contracts A-LN1 (an invoice created for a sat encodes a*1000 msat and its payment hash), A-LN2 (FeeReserve pure and <= amount), A-LN3 (fresh payment hashes); storage.MintDB contracts; A-META. Not decided: the Lightning ledger itself, msat rounding of MPP.",
             "DESIGN.md §8 C02"),
     "C03": (True,
-            "Legal transitions of a stored mint quote as a precondition of every UpdateMintQuoteState call site (UNPAID->PAID only when the backend reports settled, PAID->PENDING->ISSUED, revert to the pre-signing state); MintTokens: success implies the quote was PAID (after the poll) before and ISSUED after, outputs <= quote amount, signatures stored; an ISSUED quote is always refused; the invoice watcher re-reads the quote after its blocking wait (yield point) and only moves UNPAID to PAID.",
-            "Sequential histories plus the yield point of the invoice watcher; concurrent mint requests are not claimed. NUT-20 signature clause: see evidence (claimed only when the nut20 contracts discharge). Assumed: storage.MintDB and lightning.Client contracts, Schnorr unforgeability not decided.",
+            "Legal transitions of a stored mint quote as a precondition of every UpdateMintQuoteState call site (UNPAID->PAID only when the backend reports settled, PAID->PENDING->ISSUED, revert to the pre-signing state); MintTokens: success implies the quote was PAID (after the poll) before and ISSUED after, outputs <= quote amount, signatures stored; an ISSUED quote is always refused; the invoice watcher re-reads the quote after its blocking wait (yield point) and only moves UNPAID to PAID. RELY/GUARANTEE TIER: MintTokens and GetMintQuoteState are verified a second time with other requests acting (within the rely: an issued quote stays issued, quotes and their amounts stay, signatures stay) before every store / Lightning call; the legal-transition precondition of every state write and the guarantee 'my own write is a step the rely allows' are obligations there. Four of them FAIL and are listed as known findings: both functions write a state they computed from an earlier read (two concurrent mint requests both issue; a poll writes PAID over ISSUED) - shown by deterministic interleaving replays.",
+            "Sequential histories, the yield point of the invoice watcher, and the rely/guarantee tier for concurrent mint requests and polls (its failing obligations are open known findings, not proofs). NUT-20 signature clause: see evidence (claimed only when the nut20 contracts discharge). Assumed: storage.MintDB and lightning.Client contracts, Schnorr unforgeability not decided. Rely/guarantee tier as for C01.",
             "DESIGN.md §8 C03"),
     "C04": (True,
             "verifyProofs proved to establish, for every input of Swap and MeltTokens: secret length <= 512, keyset id known in the map of ALL keysets, amount is a key of THAT keyset, C is hex and parses as a point, and pt(C) = k(id, amount) * hash_to_curve(secret) - the key taken from exactly (id, amount) of the proof, never from the active keyset; crypto.verify/Verify proved equivalent to that equation from the algebraic contracts of the secp256k1 calls they make; HashToCurve proved equal to the NUT-00 spec function (loop invariant over the counter search).",
